@@ -8,6 +8,8 @@ T=${SEED_TAG:-}   # SEED_TAG=<x> gives this run private copies (/tmp/mutrepo<x>,
 [ -d /tmp/mutrepo$T ] || git -C /repo worktree add -q --detach /tmp/mutrepo$T HEAD
 cd /tmp/mutrepo$T && git checkout -- . && git clean -fdq && git checkout -q --detach $(git -C /repo rev-parse HEAD)
 git apply "$PATCH" || { echo "patch does not apply"; exit 2; }
+# Cargo.lock is not tracked in /repo: the scratch worktree gets /repo's copy (the table generators and cargo read it)
+[ -f /repo/Cargo.lock ] && cp /repo/Cargo.lock /tmp/mutrepo$T/Cargo.lock
 mkdir -p /tmp/mutverif$T
 # by default the COMMITTED state of /verif is used (edits in progress there must not disturb a long seed run);
 # TRY_SEED_WORKTREE=1 takes /verif's working tree instead
@@ -23,4 +25,4 @@ cd /tmp/mutverif$T
 sed -i "s#path = \"/repo\"#path = \"/tmp/mutrepo$T\"#" harness/Cargo.toml harness-default/Cargo.toml
 sed -i "s#^REPO = \"/repo\"#REPO = \"/tmp/mutrepo$T\"#" tools/gen/common.py check
 mkdir -p evidence work
-./check "$P" --tier "$TIER" | cut -c1-300 | grep -v "^TIE-BROKEN" | head -8
+./check "$P" --tier "$TIER" | cut -c1-300 | grep -v "^TIE-BROKEN" | grep -v "^TIE-DEGRADED" | head -12
